@@ -101,6 +101,13 @@ static Index IntegerList_dim(const struct IntegerList *self)
   return (Index)((OFF(self->e) - OFF(self->m)) / (long)sizeof(Index));
 }
 
+/* iterator inequality inside one list: the same comparison on offsets (constant-folded by symbolic execution) */
+static bool gv_ptr_ne(const void *p, const void *q)
+{
+  __CPROVER_assert(SAME(p, q), "iterators that are compared point into one list");
+  return OFF(p) != OFF(q);
+}
+
 /* forward declarations (definitions are extracted in file order) */
 void  IntegerList_ctor1(struct IntegerList *self, Index n);
 Index SparseMatrix_columns(const struct SparseMatrix *self);
@@ -257,6 +264,13 @@ void h_connected(void)
    arguments, so that each of the 2*(1+1+2+8+64) structures is executed on its own path with constant data.
    Edge {x,y}, x<y, is bit (y-1)(y-2)/2 + (x-1) of `bits`; rows are written ascending (what the constructor produces:
    std::set order) or, with rev, descending. */
+static bool gv_edge(Index x, Index y, unsigned bits)
+{
+  if (x == y) return 0;
+  Index lo = x < y ? x : y, hi = x < y ? y : x;
+  return (bits >> ((hi - 1) * (hi - 2) / 2 + (lo - 1))) & 1u;
+}
+
 static void mk_graph_bits(struct Adjacency *g, Index n, unsigned bits, bool rev)
 {
   for (Index x = 0; x <= GV_NMAX; x++)
@@ -264,7 +278,7 @@ static void mk_graph_bits(struct Adjacency *g, Index n, unsigned bits, bool rev)
   Index nnz = 0;
   for (Index y = 2; y <= GV_NMAX; y++)
     for (Index x = 1; x < y; x++)
-      if (y <= n && ((bits >> ((y - 1) * (y - 2) / 2 + (x - 1))) & 1u)) { gv_A[x][y] = 1; gv_A[y][x] = 1; nnz += 2; }
+      if (y <= n && gv_edge(x, y, bits)) { gv_A[x][y] = 1; gv_A[y][x] = 1; nnz += 2; }
   g->nods = n;
   Index xs = n + 2 > 3 ? n + 2 : 3;
   g->xadj.m = GV_NEW(Index, xs);
@@ -283,7 +297,7 @@ static void mk_graph_bits(struct Adjacency *g, Index n, unsigned bits, bool rev)
         for (Index k = 1; k <= GV_NMAX; k++)
           {
             Index y = rev ? GV_NMAX + 1 - k : k;
-            if (y <= n && gv_A[x][y]) { g->adjncy.m[cnt] = y; cnt++; }
+            if (y <= n && gv_edge(x, y, bits)) { g->adjncy.m[cnt] = y; cnt++; }
           }
         g->xadj.m[x + 1] = cnt;
       }
